@@ -47,10 +47,10 @@ def gen_index_cases(ctx, scale):
     cases.append('lg64 0'); cases.append('lg32 0')
     # exhaustive prefixes (range lines of 1024 indexes)
     blk = 1024
-    ex = {('sq', 0): 20, ('sq', 3): 18, ('sq', 1): 16, ('sq', 2): 16, ('sq', 5): 16, ('sq', 8): 15, ('sq', 16): 14,
+    ex = {('sq', 0): 20, ('sq', 3): 17, ('sq', 1): 15, ('sq', 2): 15, ('sq', 5): 15, ('sq', 8): 14, ('sq', 16): 13,
           ('cn', 0): 20, ('cn', 5): 20, ('cn', 3): 17, ('cn', 12): 16}
     if thorough:
-        ex = {('sq', 0): 24, ('sq', 3): 24, ('sq', 1): 22, ('sq', 2): 22, ('sq', 5): 22, ('sq', 8): 20, ('sq', 16): 18,
+        ex = {('sq', 0): 24, ('sq', 3): 22, ('sq', 1): 20, ('sq', 2): 20, ('sq', 5): 20, ('sq', 8): 19, ('sq', 16): 18,
               ('cn', 0): 24, ('cn', 5): 24, ('cn', 3): 22, ('cn', 12): 20}
     for (F, L), lg in sorted(ex.items()):
         for lo in range(0, 2 ** lg, blk):
@@ -142,9 +142,15 @@ def gen_hist_cases(ctx, scale):
 
 # ------------------------------------------------------------------ the property predicate on the real code's outputs
 def oracle(ctx, cases, lines):
-    bad = []
+    bad = []; prev_missing = False
     for c, out in zip(cases, lines):
         w = c.split()
+        if out == '<missing>':
+            # the harness process died on this case (momo assertion / memory error); the rest of its chunk is lost too
+            if not prev_missing:
+                bad.append((c, out, 'the real code crashed (assertion failure or memory error) on this case'))
+            prev_missing = True; continue
+        prev_missing = False
         try:
             if w[0] in ('lg64', 'lg32'):
                 v = int(w[1])
@@ -270,7 +276,7 @@ def run(ctx):
         hm, _ = ctx.correspond('capacity-model', hcases, par + [harness], par + [ctx.model_exe], timeout=3000)
         ctx.tie_obligations.append({'name': 'L1 capacity model (SegModel.step over the generated functions) == real momo::SegmentedArray '
                                             'on %d histories (count / segment count / capacity / newest segment id after every op)' % len(hcases), 'ok': not hm})
-        for (i, c, a, b) in hm[:2]:
+        for (i, c, a, b) in [m for m in hm if m[2] != '<missing>'][:2]:   # crashes are reported (and shrunk) by the oracle stage
             ctx.violation('L1 capacity model and the real container disagree', {'case': c, 'impl': a[-300:], 'model': b[-300:],
                           'cmd': 'echo "%s" | build/C16/harness' % c}, found_input=True)
         for (i, c, a, b) in mism[:3]:
@@ -309,9 +315,10 @@ def run(ctx):
         for o in c.split()[3:]:
             ops[o[0]] = ops.get(o[0], 0) + 1
     ctx.coverage['history_op_histogram'] = ops
+    ctx.coverage['histories_with_growth_while_nonempty'] = sum(1 for c in ctx.nontrivial if c.startswith('hist'))
     return ctx.finish(rule=RULE)
 
-RULE = ('cases = Log2 on every 2^k/2^k+-1/random; exhaustive index prefixes 0..2^20 (sqrt L=0, cnst L=0,5; smaller prefixes for other L; '
+RULE = ('cases = Log2 on every 2^k/2^k+-1/random; exhaustive index prefixes 0..2^20 (sqrt L=0, cnst L=0,5; 2^13..2^17 for other L; '
         '2^24 thorough) as range lines of 1024 consecutive indexes; aimed indexes around every 2^k, every change of logItemCount '
         '(index1 = 2^m), segment starts, and the top of the proved range for L in 0..16,20,31..33,47,48,62,63; inverse direction on random slots; '
         'random grow/shrink histories on the real container (both sizing functions, L in 0..5) aimed at segment boundaries; '
